@@ -443,6 +443,69 @@ func scenDurations(st *ekit.Stats, tier string) {
 			})
 		}
 	}
+	// durations with units keep their Go meaning beside the bare integers: minutes and hours are not
+	// seconds or milliseconds.  Long ones are observed for three seconds (the process must still
+	// be there), short ones to their end.
+	unitVals := []struct {
+		v string
+		d time.Duration
+	}{{"1500ms", 1500 * time.Millisecond}, {"2s", 2 * time.Second}, {"1m", time.Minute}, {"1m1s", 61 * time.Second}, {"1h", time.Hour}, {"0h1m", time.Minute}}
+	unitBuilders := []struct {
+		name  string
+		build func(path, v string) []string
+	}{
+		{"recv-timeout:pull:no-peer", func(p, v string) []string { return []string{"--pull", "--bind", "ipc://" + p, "--recv-timeout", v} }},
+		{"send-interval:pub:count2", func(p, v string) []string {
+			return []string{"--pub", "--bind", "ipc://" + p, "--data", "x", "--send-interval", v, "--count", "2"}
+		}},
+		{"send-delay:pub:no-peer", func(p, v string) []string { return []string{"--pub", "--bind", "ipc://" + p, "--data", "x", "--send-delay=" + v} }},
+	}
+	for _, ub := range unitBuilders {
+		for _, uv := range unitVals {
+			ub, uv := ub, uv
+			jobs = append(jobs, func() {
+				check := func() (string, string) {
+					args := ub.build(sockPath("dur"), uv.v)
+					in := "macat " + shq(args)
+					p, err := startMacat(args...)
+					if err != nil {
+						return "harness: " + err.Error(), in
+					}
+					if uv.d > 3*time.Second {
+						if p.waitExit(3 * time.Second) {
+							_ = p.out.Close()
+							return fmt.Sprintf("process ended after %v (exit %d), the duration given is %v", p.t1.Sub(p.t0).Round(time.Millisecond), p.exitCode(), uv.d), in
+						}
+						p.kill()
+						return "", in
+					}
+					life, hung := lifeOf(p)
+					if hung {
+						return fmt.Sprintf("did not exit within %v", watchdog+10*time.Second), in
+					}
+					if life < uv.d {
+						return fmt.Sprintf("process lived only %v, the duration given is %v (exit %d)", life.Round(time.Millisecond), uv.d, p.exitCode()), in
+					}
+					return "", in
+				}
+				bad, in := check()
+				st.Case(1)
+				if bad == "" {
+					st.Nontrivial(ub.name + ":" + uv.v)
+					st.Count("duration-with-unit-honoured")
+					return
+				}
+				for i := 0; i < 3; i++ {
+					if b, _ := check(); b == "" {
+						st.Count("unconfirmed-flaky")
+						nt.add("unconfirmed: " + ub.name + " " + uv.v + ": " + bad)
+						return
+					}
+				}
+				st.Fail("durations:"+ub.name+":"+uv.v, "fail", in, "duration %s must mean %v: %s", uv.v, uv.d, bad)
+			})
+		}
+	}
 	// with a connected but silent peer (the wording of the property example), and with a
 	// peer that receives: the delayed / spaced messages must also arrive
 	for _, v := range vals {
